@@ -11,15 +11,16 @@ The Go type `queue[K,T]` is a `container/heap` of items ordered by `ScheduledTim
 * `Pop()`   — removes the root;
 * `Remove(key)`.
 
-Three layers, each refining the one above it:
+Two layers, the second refining the first (`KitProofs/Lemmas/Queue.lean`):
 
-1. **specification** (`insert` / `remove` / `IsHead`): the queue is the list of live items, one per
-   key; `Peek` may return *any* item of minimal time.  This is what `KitModel/Processor.lean`
-   is written against, so its theorems hold for every tie-breaking rule.
+1. **specification** (`insert` / `remove` / `pop` / `IsHead`): the queue is the list of live items,
+   one per key; `Peek` may return *any* item of minimal time.  This is what
+   `KitModel/Processor.lean` is written against, so its theorems hold for every tie-breaking rule
+   (in particular for whatever `container/heap` does with equal times).
 2. **sorted association list** (`SortedQ`): the textbook implementation, FIFO among equal times.
-3. **binary heap with key index** (`Heap`): the algorithm of `container/heap` as `queue.go` uses
-   it (`Push` + `up`, `Pop` = swap/`down`, `Remove`, `Fix`), over an array of items.  `kitdrv`
-   runs it against the real queue (exact agreement including ties).
+
+The binary heap with its key index is not modelled; the real heap is tied to layer 1 on every run
+(every head it returns to the loop must be a minimal live item of the model).
 -/
 namespace Kit.Queue
 
